@@ -127,6 +127,15 @@ def per_dtype(add, ls, ids, dt, si, n, nt, tier, tmpdir):
                     return [krows(a.tolist()), str(a.dtype)]
                 add("flat " + show(d) + " " + show(ls), dt, guarded(fl), lambda v: None if v is None else [tr(v), dt], "flat%+d" % delta, nt,
                     f"RaggedArray(np.array({fv!r}, dtype='{dt}'), {ls})")
+                if delta == 0 and ls:
+                    # the row lengths given as a numpy array (of either index width): the array stays the caller's, who may reuse it afterwards
+                    for ldt in ("int64", "int32"):
+                        def fl_own(ldt=ldt):
+                            lens = np.array(ls, dtype=ldt); a = RaggedArray(np.array(fv, dtype=dt), lens)
+                            lens[:] = lens[::-1].copy(); lens += 1
+                            return [krows(a.tolist()), str(a.dtype)]
+                        add("flat " + show(d) + " " + show(ls), dt + "/lengths-array-" + ldt, guarded(fl_own), lambda v: None if v is None else [tr(v), dt], "flat/lengths-array-reused-by-caller", nt,
+                            f"lens = np.array({ls}, dtype='{ldt}'); a = RaggedArray(np.array({fv!r}, dtype='{dt}'), lens); lens[:] = lens[::-1]; lens += 1; a.tolist()")
             # astype
             for dt2 in ("int64", "float64", "bool", "uint8"):
                 if dt2 == dt or (dt.startswith("float") and dt2 != "float64" and dt2 != "bool"): continue
